@@ -3,9 +3,11 @@
 package main
 
 import (
+	"bytes"
 	"encoding/json"
 	"fmt"
 	"os"
+	"os/exec"
 	"sort"
 	"strconv"
 	"strings"
@@ -26,6 +28,7 @@ type concCase struct {
 	Victim  int     `json:"victim"`
 	K       int     `json:"pause_before_lock_index"`
 	Order   []int   `json:"order_of_others"` // threads run while the victim is paused
+	Chain   []int   `json:"chain,omitempty"` // [a, b]: thread b is the continuation of thread a (same goroutine in the daemon): b's calls come after all of a's
 }
 
 type concOutcome struct {
@@ -141,13 +144,33 @@ func interleavings(lens []int) [][]int {
 	return res
 }
 
-func sequentialOutcomes(threads [][]HOp) (map[string]bool, error) {
+// respectsChain: no call of thread chain[1] before the last call of thread chain[0]
+func respectsChain(il []int, chain []int, lens []int) bool {
+	if len(chain) != 2 {
+		return true
+	}
+	seenA := 0
+	for _, t := range il {
+		if t == chain[0] {
+			seenA++
+		}
+		if t == chain[1] && seenA < lens[chain[0]] {
+			return false
+		}
+	}
+	return true
+}
+
+func sequentialOutcomes(threads [][]HOp, chain []int) (map[string]bool, error) {
 	lens := make([]int, len(threads))
 	for i, t := range threads {
 		lens[i] = len(t)
 	}
 	set := map[string]bool{}
 	for _, il := range interleavings(lens) {
+		if !respectsChain(il, chain, lens) {
+			continue
+		}
 		c := newConcRunner(threads)
 		idx := make([]int, len(threads))
 		results := make([][]string, len(threads))
@@ -179,6 +202,7 @@ func runConc(cc concCase) (concResult, error) {
 	sm, pm := sessiontracker.VerifMaps(c.r.tr)
 	ctl.Name(sm, "sessions")
 	ctl.Name(pm, "parked")
+	ctl.Name(c.r.enc, "writer")
 	common.VerifHook = ctl.Hook
 	defer func() { common.VerifHook = nil }()
 	results := make([][]string, len(cc.Threads))
@@ -231,7 +255,7 @@ func runConc(cc concCase) (concResult, error) {
 }
 
 // small concurrent programs over one or two sessions
-func genConcPrograms(r *hutil.Rand) [][]HOp {
+func genConcPrograms(r *hutil.Rand) ([][]HOp, []int) {
 	g := &genState{r: r, nextSid: 1, nextPid: 70}
 	pid := 70 + r.Intn(5)
 	sid := strconv.Itoa(1 + r.Intn(3))
@@ -241,6 +265,20 @@ func genConcPrograms(r *hutil.Rand) [][]HOp {
 		audit = append(audit, g.ev(sid, "CRED_DISP", strconv.Itoa(pid)))
 	}
 	threads := [][]HOp{{login}, audit}
+	if r.Chance(1, 4) {
+		// the audit goroutine's later deliveries for the SAME session as a continuation thread: lets a
+		// schedule run the first part before the login starts and the rest while the login is paused
+		var cont []HOp
+		ended := audit[len(audit)-1].Event.Type == "CRED_DISP"
+		for i := 0; i < 1+r.Intn(2); i++ {
+			cont = append(cont, g.ev(sid, hutil.Pick(r, otherTypes), strconv.Itoa(pid+1000)))
+		}
+		if !ended && r.Bool() {
+			cont = append(cont, g.ev(sid, "CRED_DISP", strconv.Itoa(pid)))
+		}
+		threads = append(threads, cont)
+		return threads, []int{1, 2}
+	}
 	switch r.Intn(5) {
 	case 0: // another session with its own login, events on a third thread
 		pid2, sid2 := pid+7, strconv.Itoa(9)
@@ -260,7 +298,7 @@ func genConcPrograms(r *hutil.Rand) [][]HOp {
 	case 2: // events of another (uncorrelated) session
 		threads = append(threads, []HOp{g.ev("8", "LOGIN", "999"), g.ev("8", hutil.Pick(r, otherTypes), "5")})
 	}
-	return threads
+	return threads, nil
 }
 
 func opsString(threads [][]HOp) string {
@@ -275,24 +313,168 @@ func opsString(threads [][]HOp) string {
 	return strings.Join(ts, " || ")
 }
 
-func concMain(out string, n int, seed uint64) {
+// ---------- property oracles on the final outcome of a concurrent run (independent of the sequential comparison) ----------
+
+type concFail struct{ key, what string }
+
+func concPropertyOracles(threads [][]HOp, chain []int, o concOutcome) []concFail {
+	var fs []concFail
+	loginPid := map[int]int{}      // login id -> pid
+	loginsOfPid := map[int][]int{} // pid -> login ids
+	discard := false
+	type sess struct {
+		loginRecPid string
+		nLoginRec   int
+		events      []int // ids in delivery order (thread order; chain: a then b)
+		disp        int   // index in events of CRED_DISP, -1
+		firstLogin  int   // index in events of the LOGIN record, -1
+	}
+	ss := map[string]*sess{}
+	evSession := map[int]string{}
+	order := []int{}
+	for t := range threads {
+		if len(chain) == 2 && t == chain[1] {
+			continue
+		}
+		order = append(order, t)
+		if len(chain) == 2 && t == chain[0] {
+			order = append(order, chain[1])
+		}
+	}
+	for _, t := range order {
+		for _, op := range threads[t] {
+			switch op.Kind {
+			case "login":
+				loginPid[op.Login.ID] = op.Login.PID
+				loginsOfPid[op.Login.PID] = append(loginsOfPid[op.Login.PID], op.Login.ID)
+			case "audit":
+				e := op.Event
+				if _, err := strconv.Atoi(e.Ses); err != nil {
+					continue
+				}
+				x := ss[e.Ses]
+				if x == nil {
+					x = &sess{disp: -1, firstLogin: -1}
+					ss[e.Ses] = x
+				}
+				evSession[e.ID] = e.Ses
+				if e.Type == "LOGIN" {
+					x.nLoginRec++
+					if x.firstLogin < 0 {
+						x.firstLogin = len(x.events)
+						x.loginRecPid = e.PIDText
+					}
+				}
+				if e.Type == "CRED_DISP" && x.disp < 0 && x.firstLogin >= 0 {
+					x.disp = len(x.events)
+				}
+				x.events = append(x.events, e.ID)
+			case "clean_sess", "clean_logins":
+				if op.Cut != 0 {
+					discard = true
+				}
+			}
+		}
+	}
+	for sid, em := range o.PerSession {
+		x := ss[sid]
+		for _, le := range em {
+			var l, e int
+			fmt.Sscanf(le, "%d/%d", &l, &e)
+			if x == nil || x.firstLogin < 0 {
+				fs = append(fs, concFail{"conc:silence", fmt.Sprintf("event %d of session %q was emitted although the session has no LOGIN record", e, sid)})
+				continue
+			}
+			p, err := strconv.Atoi(x.loginRecPid)
+			if pid, ok := loginPid[l]; !ok || err != nil || pid != p {
+				fs = append(fs, concFail{"conc:identity", fmt.Sprintf("event %d of session %s (opened by pid %s) carries the identity of login %d (pid %d)", e, sid, x.loginRecPid, l, loginPid[l])})
+			}
+		}
+	}
+	for sid, x := range ss {
+		if x.firstLogin < 0 || x.nLoginRec != 1 {
+			continue
+		}
+		p, err := strconv.Atoi(x.loginRecPid)
+		if err != nil || len(loginsOfPid[p]) != 1 {
+			continue
+		}
+		// other sessions opened by the same pid make the history ill-formed for C02
+		same := 0
+		for _, y := range ss {
+			if y.firstLogin >= 0 && y.loginRecPid == x.loginRecPid {
+				same++
+			}
+		}
+		if same != 1 || discard {
+			continue
+		}
+		// both halves were delivered: every event from the LOGIN record to the disposal record exactly once, in order
+		want := x.events[x.firstLogin:]
+		must := len(want)
+		if x.disp >= 0 {
+			must = x.disp - x.firstLogin + 1
+		}
+		var got []int
+		for _, le := range o.PerSession[sid] {
+			var l, e int
+			fmt.Sscanf(le, "%d/%d", &l, &e)
+			got = append(got, e)
+		}
+		ok := len(got) >= must && len(got) <= len(want)
+		for i := 0; ok && i < len(got); i++ {
+			ok = got[i] == want[i]
+		}
+		if !ok {
+			fs = append(fs, concFail{"conc:once-in-order", fmt.Sprintf("session %s: login (pid %d) and LOGIN record were both delivered, events from the LOGIN record on are %v (at least the first %d must be emitted, once, in order) but the emitted ones are %v; final state: sessions %v, parked %v",
+				sid, p, want, must, got, o.Sessions, o.Parked)})
+		}
+	}
+	return fs
+}
+
+// which keys a property's concurrent stage reports
+func concKeyWanted(prop, key string) bool {
+	switch prop {
+	case "C01":
+		return key == "conc:identity"
+	case "C02":
+		return key == "conc:once-in-order" || key == "conc:crash"
+	case "C04":
+		return key == "conc:silence"
+	}
+	return true // C03: everything
+}
+
+func inflightPath(out string) string { return out + "/inflight.json" }
+
+func concMain(out string, n int, seed uint64, prop string) {
 	r := hutil.NewRand(seed ^ 0xC03)
-	sum := hutil.NewSummary("C03", seed,
-		"small concurrent programs (login || LOGIN record + follow-up events || events of another session or cleanup), 2-3 threads, <= 7 calls; "+
-			"for every victim thread and every lock-acquisition index k of its run the victim is paused there while the other threads run in each order, then resumed "+
-			"(all single-preemption schedules at hook granularity on the REAL correlator); the outcome (events per session in order, with identities; final state; results) must equal "+
-			"the outcome of some sequential interleaving executed on the same implementation; non-trivial = the victim was paused inside a call; distinct by (program, victim, k, order)")
+	sum := hutil.NewSummary(prop, seed,
+		"small concurrent programs (login || LOGIN record + follow-up events || later events of the same session, events of another session, or cleanup), 2-3 threads, <= 8 calls; "+
+			"for every victim thread and every hook index k of its run (just before each lock acquisition of the shared maps, and just before each event write) the victim is paused there while the other threads run in each order, "+
+			"some of them before the victim starts, then it is resumed (all single-preemption schedules at hook granularity on the REAL correlator, under the race detector, one child process so that a crash is attributed to its schedule); "+
+			"C03: the outcome (events per session in order, with identities; final state; results) must equal the outcome of some sequential interleaving executed on the same implementation; "+
+			"C01/C02/C04 stages: identity / once-in-order / silence oracles on the final outcome, computed from the program alone; non-trivial = the victim was paused inside a call; distinct by (program, victim, k, order)")
+	os.MkdirAll(out, 0o755)
 	progs := 0
 	for progs < n {
-		threads := genConcPrograms(r)
+		threads, chain := genConcPrograms(r)
 		progs++
-		seqSet, err := sequentialOutcomes(threads)
+		seqSet, err := sequentialOutcomes(threads, chain)
 		if err != nil {
 			sum.Fail("harness", "cannot interpret sequential run: "+err.Error(), threads)
 			continue
 		}
 		sum.Dist(fmt.Sprintf("threads_%d", len(threads)))
+		if len(chain) == 2 {
+			sum.Dist("programs_with_continuation_thread")
+		}
 		sum.Dist(fmt.Sprintf("sequential_outcomes_%d", len(seqSet)))
+		lens := make([]int, len(threads))
+		for i, t := range threads {
+			lens[i] = len(t)
+		}
 		for victim := range threads {
 			var others []int
 			for t := range threads {
@@ -310,8 +492,25 @@ func concMain(out string, n int, seed uint64) {
 						continue // nobody left to run at the pause: plain sequential
 					}
 					pre, ord := full[:split], full[split:]
-					for k := 0; k < 10; k++ {
-						cc := concCase{Threads: threads, Pre: pre, Victim: victim, K: k, Order: ord}
+					if len(chain) == 2 {
+						// the continuation never starts before its first part has finished
+						pos := map[int]int{}
+						for i, t := range full {
+							pos[t] = i
+						}
+						pos[victim] = split // the victim's calls start here (and finish after the others)
+						if victim == chain[0] || pos[chain[1]] < pos[chain[0]] {
+							continue
+						}
+						if victim == chain[1] && pos[chain[0]] >= split {
+							continue
+						}
+					}
+					for k := 0; k < 12; k++ {
+						cc := concCase{Threads: threads, Pre: pre, Victim: victim, K: k, Order: ord, Chain: chain}
+						if b, err := json.Marshal(map[string]any{"conc": cc}); err == nil {
+							_ = os.WriteFile(inflightPath(out), b, 0o644)
+						}
 						res, err := runConc(cc)
 						if err != nil {
 							sum.Fail("harness", "cannot interpret concurrent run: "+err.Error(), map[string]any{"conc": cc})
@@ -327,15 +526,23 @@ func concMain(out string, n int, seed uint64) {
 						}
 						sum.Count(fmt.Sprint(opsString(threads), pre, victim, k, ord), true)
 						sum.Dist(fmt.Sprintf("pause_index_%d", k))
+						if len(res.Trace) > 0 {
+							sum.Dist("paused_before_" + lastOf(res.Trace))
+						}
 						sum.Dist(fmt.Sprintf("threads_before_victim_%d", len(pre)))
-						if !seqSet[res.Outcome.key()] {
+						where := fmt.Sprintf("%s — T%v run first, then victim T%d paused before hook %d (%v) while T%v run", opsString(threads), pre, victim, k, res.Trace, ord)
+						if !seqSet[res.Outcome.key()] && concKeyWanted(prop, "conc:not-linearizable") {
 							sum.FailKey("oracle", "conc:not-linearizable",
-								fmt.Sprintf("%s — T%v run first, then victim T%d paused before lock acquisition %d (%v) while T%v run: outcome %s equals no sequential ordering's outcome",
-									opsString(threads), pre, victim, k, res.Trace, ord, res.Outcome.key()),
+								fmt.Sprintf("%s: outcome %s equals no sequential ordering's outcome", where, res.Outcome.key()),
 								map[string]any{"conc": cc, "observed": res})
 						}
+						for _, f := range concPropertyOracles(threads, chain, res.Outcome) {
+							if concKeyWanted(prop, f.key) {
+								sum.FailKey("oracle", f.key, where+": "+f.what, map[string]any{"conc": cc, "observed": res})
+							}
+						}
 						for i, f := range res.OthersFinished {
-							if f {
+							if f && prop == "C03" {
 								// another thread completed a whole program while the victim was inside a call:
 								// the call is not a critical section of one correlator-wide mutex (model: locked = true)
 								sum.FailKey("harness", "conc:call-not-atomic",
@@ -344,13 +551,14 @@ func concMain(out string, n int, seed uint64) {
 							}
 						}
 						if len(sum.Samples) < 3 {
-							sum.Sample(map[string]any{"program": opsString(threads), "run_before_victim": pre, "victim": victim, "pause_before_lock_index": k, "victim_lock_trace": res.Trace})
+							sum.Sample(map[string]any{"program": opsString(threads), "run_before_victim": pre, "victim": victim, "pause_before_hook_index": k, "victim_hook_trace": res.Trace})
 						}
 					}
 				}
 			}
 		}
 	}
+	os.Remove(inflightPath(out))
 	sum.CaseFiles = nil
 	sum.Write(out)
 }
@@ -362,27 +570,138 @@ func lastOf(t []string) string {
 	return t[len(t)-1]
 }
 
-func replayConc(cc concCase) int {
-	seqSet, err := sequentialOutcomes(cc.Threads)
-	if err != nil {
-		fmt.Println("harness error:", err)
-		return 2
+// concParent runs the exploration in a child process (GORACE halt_on_error): a panic, a fatal runtime
+// error or a data race kills the child; the schedule in flight is then reported as the failing input.
+func concParent(out, prop string, seed uint64) int {
+	os.MkdirAll(out, 0o755)
+	os.Remove(out + "/summary.json")
+	cmd := exec.Command(os.Args[0], os.Args[1:]...)
+	cmd.Env = append(os.Environ(), "VERIF_CONC_CHILD=1", "GORACE=halt_on_error=1")
+	var buf bytes.Buffer
+	cmd.Stdout = &buf
+	cmd.Stderr = &buf
+	err := cmd.Run()
+	if _, serr := os.Stat(out + "/summary.json"); err == nil && serr == nil {
+		os.Stdout.Write(buf.Bytes())
+		return 0
 	}
-	res, err := runConc(cc)
-	if err != nil {
-		fmt.Println("harness error:", err)
-		return 2
+	tail := buf.String()
+	if len(tail) > 3000 {
+		tail = tail[:1500] + "\n...\n" + tail[len(tail)-1500:]
 	}
-	if res.Hung {
-		fmt.Println("REPRODUCED conc:deadlock")
-		return 1
+	sum := hutil.NewSummary(prop, seed, "the exploring child process died; the schedule in flight is reported")
+	raw, rerr := os.ReadFile(inflightPath(out))
+	var infl map[string]any
+	if rerr != nil || json.Unmarshal(raw, &infl) != nil {
+		sum.FailKey("harness", "conc:child-died", fmt.Sprintf("the exploring child process ended (%v) without a summary and without a schedule in flight: %s", err, tail), nil)
+		sum.Write(out)
+		return 0
 	}
-	if !seqSet[res.Outcome.key()] {
-		fmt.Printf("REPRODUCED conc:not-linearizable: %s: outcome %s equals no sequential ordering's outcome\n", opsString(cc.Threads), res.Outcome.key())
-		return 1
+	kind := "the correlator crashed"
+	switch {
+	case strings.Contains(tail, "DATA RACE"):
+		kind = "the race detector reported a data race"
+	case strings.Contains(tail, "fatal error:"):
+		kind = "fatal runtime error"
+	case strings.Contains(tail, "panic:"):
+		kind = "panic"
 	}
-	fmt.Println("not reproduced")
+	sum.Count("crash", true)
+	// a crash ends the exploration; look for a deterministic failing schedule as well: same exploration
+	// without halting at the first data race (a panic still ends it)
+	cmd2 := exec.Command(os.Args[0], os.Args[1:]...)
+	cmd2.Env = append(os.Environ(), "VERIF_CONC_CHILD=2", "GORACE=halt_on_error=0")
+	var buf2 bytes.Buffer
+	cmd2.Stdout = &buf2
+	cmd2.Stderr = &buf2
+	_ = cmd2.Run()
+	if raw2, err2 := os.ReadFile(out + "/summary.json"); err2 == nil {
+		var s2 hutil.Summary
+		if json.Unmarshal(raw2, &s2) == nil {
+			for _, f := range s2.Failures {
+				if f.Kind == "oracle" {
+					sum.Failures = append(sum.Failures, f)
+				}
+			}
+			sum.Evaluations += s2.Evaluations
+			sum.DistinctNontrivial += s2.DistinctNontrivial
+			sum.Distribution = s2.Distribution
+			sum.Samples = s2.Samples
+			sum.Rule = s2.Rule
+		}
+	}
+	sum.FailKey("oracle", "conc:crash", fmt.Sprintf("%s during the schedule in flight (child ended: %v): %s", kind, err, tail), infl)
+	sum.CaseFiles = nil
+	sum.Write(out)
 	return 0
+}
+
+func replayConcParent() int {
+	var err error
+	var outp string
+	// a crash may depend on timing beyond the forced pause: a few attempts
+	for try := 0; try < 6; try++ {
+		cmd := exec.Command(os.Args[0], os.Args[1:]...)
+		cmd.Env = append(os.Environ(), "VERIF_CONC_CHILD=1", "GORACE=halt_on_error=1")
+		var buf bytes.Buffer
+		cmd.Stdout = &buf
+		cmd.Stderr = &buf
+		err = cmd.Run()
+		outp = buf.String()
+		if strings.Contains(outp, "DATA RACE") || strings.Contains(outp, "fatal error:") || strings.Contains(outp, "panic:") {
+			if len(outp) > 2500 {
+				outp = outp[:2500]
+			}
+			fmt.Println("REPRODUCED conc:crash:", outp)
+			return 1
+		}
+		if strings.Contains(outp, "REPRODUCED") {
+			break
+		}
+	}
+	fmt.Print(outp)
+	if ee, ok := err.(*exec.ExitError); ok {
+		return ee.ExitCode()
+	}
+	if err != nil {
+		return 2
+	}
+	return 0
+}
+
+func replayConc(cc concCase, prop string) int {
+	seqSet, err := sequentialOutcomes(cc.Threads, cc.Chain)
+	if err != nil {
+		fmt.Println("harness error:", err)
+		return 2
+	}
+	rc := 0
+	// a schedule-dependent failure may need more than one run (the pause is exact, the others' progress is timed)
+	for try := 0; try < 3 && rc == 0; try++ {
+		res, err := runConc(cc)
+		if err != nil {
+			fmt.Println("harness error:", err)
+			return 2
+		}
+		if res.Hung {
+			fmt.Println("REPRODUCED conc:deadlock")
+			return 1
+		}
+		if !seqSet[res.Outcome.key()] && concKeyWanted(prop, "conc:not-linearizable") {
+			fmt.Printf("REPRODUCED conc:not-linearizable: %s: outcome %s equals no sequential ordering's outcome\n", opsString(cc.Threads), res.Outcome.key())
+			rc = 1
+		}
+		for _, f := range concPropertyOracles(cc.Threads, cc.Chain, res.Outcome) {
+			if concKeyWanted(prop, f.key) {
+				fmt.Printf("REPRODUCED %s: %s\n", f.key, f.what)
+				rc = 1
+			}
+		}
+	}
+	if rc == 0 {
+		fmt.Println("not reproduced")
+	}
+	return rc
 }
 
 var _ = sort.Strings
